@@ -224,6 +224,16 @@ Definition df_create_field (c:cfg) (g:Z) (n:name) (t:Z) : M Z :=
     exec modify (fun s => set_py_cols s (fupd (py_cols s) g (d_set (py_cols s g) n f))) ;;
     ret f.
 
+(* DataFrame.create_<type>(name, <invalid other arguments>): t >= 5 stands for a create call whose remaining arguments
+   are invalid (5: an unknown nformat -> TypeError; 6: an empty categorical key, 7: a fixed-string length 0 ->
+   ValueError). base_field_contructor checks the name and creates the group, then the specific constructor fails;
+   since fix F-C15d (fields._no_partial_field) the group is removed again before the exception leaves, so the call
+   changes nothing. (As found the group stayed in the file, unlisted by the dataframe, and the name was unusable.) *)
+Definition df_create_invalid (g:Z) (n:name) (t:Z) : M Z :=
+  run s0 <-- mget ;;
+  if d_mem (py_cols s0 g) n then raise E_ValueError
+  else raise (if t =? 5 then E_TypeError else E_ValueError).
+
 (* field.data.write(values) on a freshly created (empty) field *)
 Definition field_write (f:Z) (dat:list Z) : M unit :=
   modify (fun s => set_fld_data s (fupd (fld_data s) f (fld_data s f ++ dat))).
@@ -463,7 +473,10 @@ Inductive op :=
 
 Definition step (c:cfg) (o:op) : M unit :=
   match o with
-  | OCreate i d n t dat => run g <-- ds_getitem i d ;; run f <-- df_create_field c g n t ;; field_write f dat
+  | OCreate i d n t dat =>
+      run g <-- ds_getitem i d ;;
+      run f <-- (if 5 <=? t then df_create_invalid g n t else df_create_field c g n t) ;;
+      field_write f dat
   | OSetItem i d n j d' n' => run sg <-- ds_getitem j d' ;; run f <-- df_getitem sg n' ;; run g <-- ds_getitem i d ;; df_setitem c g n f
   | OAdd i d j d' n' => run g <-- ds_getitem i d ;; run sg <-- ds_getitem j d' ;; run f <-- df_getitem sg n' ;; df_add c g f
   | ODelItem i d n => run g <-- ds_getitem i d ;; df_delitem g n
